@@ -2,7 +2,7 @@
 from tools.vlib import *
 
 PID = "C12"
-READY = False
+READY = True
 MANIFEST = {
     "level_text": "Lean 4 theorems about a model of KeyExchange (modexp with its uint64 wrap-around made explicit, compute_public, "
                   "validate_public, derive_shared_secret), make_handshake_material, KeyManager::register_session_with_material and the key "
@@ -160,7 +160,7 @@ def spec() -> Spec:
         generate=generate,
         extract=extract,
         nontrivial=nontrivial,
-        budget={"quick": 500, "thorough": 12000},
+        budget={"quick": 500, "thorough": 9000},
         search_budget={"quick": 1500, "thorough": 20000},
         divergence_is_violation=False,
         per_case_timeout=60.0,
